@@ -241,16 +241,22 @@ def memmem_shards(ctx, parts, maxn, maxh, avails=("avx2", "vec", "none"), prefs=
 def oracle_shards(ctx, big=False):
     """P-layer vectors for S->I plus the oracle/lifting lemmas."""
     q = ctx.quick
-    S = [("so_lift", "MC_SubOracle", dict(Alpha={0, 1}, MinN=0, MaxN=4, MaxH=7 if q else 8, Scales={2, 3}, CheckLift=True, Emit=False, Hole=False), SO_INV, 4)]
+    S = [("so_lift", "MC_SubOracle", dict(Alpha={0, 1}, MinN=0, MaxN=4, MaxH=7 if q else 8, Scales={2, 3}, CheckLift=True, Emit=False, Hole=False, NearMiss=False), SO_INV, 4)]
     mxn, mxh = (5, 9) if q else (6, 11)
     for lo, hi in ((0, 3), (4, 4), (5, 5), (6, 6)):
         if lo > mxn:
             continue
-        S.append(("so_b%d" % lo, "MC_SubOracle", dict(Alpha={0, 1}, MinN=lo, MaxN=min(hi, mxn), MaxH=mxh, Scales={2}, CheckLift=False, Emit=True, Hole=False), SO_INV, 3))
-    S.append(("so_t", "MC_SubOracle", dict(Alpha={0, 1, 2}, MinN=1, MaxN=3, MaxH=6 if q else 7, Scales={2}, CheckLift=False, Emit=True, Hole=False), SO_INV, 3))
+        S.append(("so_b%d" % lo, "MC_SubOracle", dict(Alpha={0, 1}, MinN=lo, MaxN=min(hi, mxn), MaxH=mxh, Scales={2}, CheckLift=False, Emit=True, Hole=False, NearMiss=False), SO_INV, 3))
+    S.append(("so_t", "MC_SubOracle", dict(Alpha={0, 1, 2}, MinN=1, MaxN=3, MaxH=6 if q else 7, Scales={2}, CheckLift=False, Emit=True, Hole=False, NearMiss=False), SO_INV, 3))
     # binary needles, binary haystacks with one byte from outside the needle's alphabet (byte-set skips, resets of remembered state)
-    S.append(("so_h", "MC_SubOracle", dict(Alpha={0, 1}, MinN=2, MaxN=3 if q else 4, MaxH=9 if q else 10, Scales={2}, CheckLift=False, Emit=True, Hole=True), SO_INV, 3))
+    S.append(("so_h", "MC_SubOracle", dict(Alpha={0, 1}, MinN=2, MaxN=3 if q else 4, MaxH=9 if q else 10, Scales={2}, CheckLift=False, Emit=True, Hole=True, NearMiss=False), SO_INV, 3))
     return S
+
+
+def nearmiss_shards(ctx, lens):
+    """Periodic needles against haystacks made of their own one-byte-off near matches (see MC_SubOracle.NearMissInit)."""
+    return [("so_nm%d" % L, "MC_SubOracle", dict(Alpha={0, 1, 2}, MinN=L, MaxN=L, MaxH=0, Scales={2}, CheckLift=False, Emit=True, Hole=False, NearMiss=True), SO_INV, 6)
+            for L in lens]
 
 
 def vec_of(ctx, res, shards, name):
@@ -278,11 +284,16 @@ def substring(ctx, parts, groups, classes, mm_bounds, lifts=None):
     maxn, maxh = mm_bounds
     ms = memmem_shards(ctx, parts, maxn, maxh)
     os_ = oracle_shards(ctx)
-    res = run_shards(ctx, ms + os_, timeout=3000)
+    nm = [] if q else nearmiss_shards(ctx, [6, 7])
+    res = run_shards(ctx, ms + os_ + nm, timeout=3000)
     vec, n = vec_of(ctx, res, os_, "mm.ndjson")
     ctx.traces += n
     ctx.nontrivial += sum(1 for v in C.read_vectors(vec) if v["find"] >= 0)
     mm_replay(ctx, binp, vec, groups, classes, lifts or (6 if q else 14))
+    if nm:
+        nvec, nn_ = vec_of(ctx, res, nm, "nearmiss.ndjson")
+        ctx.traces += nn_
+        mm_replay(ctx, binp, nvec, groups, classes, 10, forces=("avx2", "fallback"), tag="nearmiss")
     ctx.evaluations += sum_exec(ctx, ["mm_exec", "prefilter_exec"])
 
 
@@ -315,11 +326,15 @@ def c10(ctx):
         ms = memmem_shards(ctx, ["find", "iter"], 4, 5, ranks=(0, 1, 2), alpha=(0, 1, 2), tagp="mm3")
     ms += memmem_shards(ctx, ["find", "iter"], 5, 7 if q else 9, ranks=(0, 2), tagp="mm2")
     os_ = oracle_shards(ctx)
-    res = run_shards(ctx, ms + os_, timeout=3000)
+    nm = nearmiss_shards(ctx, [7] if q else [6, 7, 8])
+    res = run_shards(ctx, ms + os_ + nm, timeout=3000)
     vec, n = vec_of(ctx, res, os_, "mm.ndjson")
-    ctx.traces += n
-    ctx.nontrivial += sum(1 for v in C.read_vectors(vec) if v["find"] >= 0)
+    nvec, nn_ = vec_of(ctx, res, nm, "nearmiss.ndjson")
+    ctx.traces += n + nn_
+    ctx.nontrivial += sum(1 for v in C.read_vectors(vec) if v["find"] >= 0) + nn_
     mm_replay(ctx, binp, vec, "cfg", {"result", "panic"}, 6 if q else 12)
+    # near-miss family: lifts beyond the pad-only ones so that the needles exceed 32 bytes (Two-Way + prefilter)
+    mm_replay(ctx, binp, nvec, "cfg", {"result", "panic"}, 8 if q else 12, forces=("avx2", "fallback"), tag="nearmiss")
     ctx.evaluations += sum_exec(ctx, ["mm_exec"])
     return C.finish(ctx, "model_checking", RULE_SUB + "; C10: the ranker is a nondeterministic function in the model (all functions Alpha -> Ranks), and the replay runs a ranker table "
                     "(constant 0/255, identity, reversed, seeded random, needle bytes commonest/rarest) x Prefilter::{None,Auto}")
